@@ -145,7 +145,7 @@ class Run:
     """Real guard / monitors / cleaners on one fresh set of token files. All records (system calls from the shim,
     controller events) go to one file in their real order: only one process moves at a time."""
 
-    def __init__(self, ctx, tag, levels, stepped=True, count="so"):
+    def __init__(self, ctx, tag, levels, stepped=True, count="so", free=()):
         self.dir = ctx.path("runs", tag, "x")[:-2]
         self.tok = os.path.join(self.dir, "tok")
         os.makedirs(self.tok, exist_ok=True)
@@ -161,6 +161,7 @@ class Run:
         self.diverged = None
         self.answers = []                  # (proc, event dict)
         self.faults = {}                   # cleaner -> (k, errno): fail the k-th numbered call of its attempt
+        self.free = set(free)              # processes of a stepped run that are never stopped (whole commands only)
         self.step_dir = os.path.join(self.dir, "fifo") if stepped else None
 
     def files_left(self):
@@ -181,7 +182,7 @@ class Run:
         if p not in self.procs:
             role = "guard" if p == "G" else ("monitor" if p.startswith("M") else "cleaner")
             self.procs[p] = shimctl.Proc([BIN, role, "--dir", self.tok, "--name", NAME], self.roots, p, self.log,
-                                         self.count, step_dir=self.step_dir,
+                                         self.count, step_dir=None if p in self.free else self.step_dir,
                                          stderr_path=os.path.join(self.dir, "stderr.txt"))
             self.state[p] = "new"
         return self.procs[p]
@@ -504,11 +505,10 @@ def extract_refusals(ctx, cacq, nstate, drift):
             tails.append(default)
             how.append("assumed")
             continue
-        r = Run(ctx, f"dry-refuse-{j}", {}, stepped=True)
+        r = Run(ctx, f"dry-refuse-{j}", {}, stepped=True, free=("G",))
         tail = None
         try:
-            r.proc("G")
-            r.finish("G")
+            r.run_cmd("G")
             r.crash("G")
             if r.steps("C2", nstate + j - 1) != nstate + j - 1:
                 drift.append(f"refusal of acquire step {j}: the loser has fewer calls than expected")
@@ -1039,17 +1039,16 @@ def grid_run(ctx, tag, a, b, variant):
     "kill": the first cleaner that is busy (attempting / owning / dropping) is killed where it stands. A third
     cleaner then tries (it must recover what a dead cleaner left), monitors ask again."""
     levels = {"M1": "pm", "M2": "cal"}
-    r = Run(ctx, tag, levels, stepped=True)
+    r = Run(ctx, tag, levels, stepped=True, free=("G", "M1", "M2"))     # only the cleaners are stopped
     hang = None
     try:
-        r.proc("G")
-        r.finish("G")
+        r.run_cmd("G")
         r.crash("G")
         r.steps("C2", a)
         r.steps("C1", b)
         r.finish("C2")
-        r.query("M1")
-        r.query("M2")
+        r.run_cmd("M1")
+        r.run_cmd("M2")
         if variant == "kill":
             for p in ("C1", "C2"):
                 if r.state.get(p) in BUSY:
@@ -1062,12 +1061,12 @@ def grid_run(ctx, tag, a, b, variant):
                     r.finish(p, whole_life=True)
         r.proc("C3")
         r.finish("C3")
-        r.query("M1")
-        r.query("M2")
+        r.run_cmd("M1")
+        r.run_cmd("M2")
         for p in ("C3", "C1", "C2"):
             if r.state.get(p) in BUSY:
                 r.finish(p, whole_life=True)
-        r.query("M1")
+        r.run_cmd("M1")
         recs = r.records()
     except shimctl.Hang as e:
         hang = str(e)
@@ -1120,11 +1119,12 @@ def refusal_jobs(ext, quick, rng):
     total = nstate + nacq
     if quick:
         # the loser has passed its own state() check / has opened some files / stands before its lock attempt
-        avals = sorted({nstate // 2, nstate, nstate + max(nacq - 3, 0), total - 1})
+        avals = sorted({nstate, nstate + max(nacq - 3, 0), total - 1})
     else:
         avals = list(range(0, total + 1))
+    # quick: the two continuations alternate over the grid, thorough: both at every point
     grid = [(f"grid-{a}-{b}-{v}", a, b, v) for a in avals for b in range(0, total + ndrop + 1)
-            for v in ("complete", "kill")]
+            for v in ("complete", "kill") if not quick or (v == "kill") == ((a + b) % 2 == 1)]
     fails = [i + 1 for i, x in enumerate(ext["AcquireCalls"]) if x["op"] in ("open", "lock", "lockw")]
     faults = []
     for k in fails:
